@@ -512,7 +512,7 @@ ALL32 = [dict(zip(OPTS, bits)) for bits in itertools.product([False, True], repe
 
 
 def admissible(subject, o):
-    if subject in ("OptCachedRenamer", "OptCachedCounter", "OptCachedWalker"):
+    if subject in ("OptCachedRenamer", "OptCachedCounter", "OptCachedWalker", "OptCachedTwice"):
         return True
     if subject == "OptArgRenamer":
         return not (o["drop_args"] or o["drop_kwargs"] or o["inline_cache"])
@@ -645,6 +645,12 @@ def workload(ctx):
         if ctx.mine("opt-single"):
             ctx.case(("opt", s, tuple(sorted(o.items()))), True, n=0)
             ctx.run("C05.optimize", ([[s, o]],))
+    # a subject whose handlers map the result of a mapped operand AGAIN (rec inside rec)
+    for o in ALL32:
+        if (ctx.thorough or o["inline_cache"] or not any(o.values())) and ctx.mine("opt-twice"):
+            ctx.case(("opt", "OptCachedTwice", tuple(sorted(o.items()))), True, n=0)
+            ctx.count("nested_rec_subject")
+            ctx.run("C05.optimize", ([["OptCachedTwice", o]],))
     ctx.set_exhaustive("optimizer: 32 option combinations on the argument-free cached subject, "
                        "fresh process each")
     # histories: 2-6 applications in random order in one process
@@ -663,5 +669,6 @@ def workload(ctx):
         ctx.floor("instances:" + k, 300)
     ctx.floor("keys_counted", 2000)
     ctx.floor("optimized_classes", 100)
+    ctx.floor("nested_rec_subject", 17)
     ctx.floor("optimizer_histories", 20)
     ctx.floor("handler:CachedMapper.get_cache_key", 10000)
